@@ -911,8 +911,10 @@ def rule_hello_checks(ctx):
              abort=lambda e: bool(e["early_data.extData"]) or not e["psk"]),
         dict(what="supported_versions must contain a version the settings enable",
              dom={"ver_ext": [True], "ver_ext.versions": [((3, 3),), ((3, 5),), ((3, 5), (3, 2))],
-                  "settings.versions": [((3, 3), (3, 2)), ((3, 3),)], "clientHello.cipher_suites": [(47,)]},
-             abort=lambda e: not set(e["ver_ext.versions"]) & set(e["settings.versions"])),
+                  "settings.versions": [((3, 3), (3, 2)), ((3, 3),)], "clientHello.cipher_suites": [(47,)],
+                  "settings.minVersion": [(3, 1), (3, 3)]},
+             abort=lambda e: not [v for v in e["settings.versions"]
+                                  if v in e["ver_ext.versions"] and v >= e["settings.minVersion"]]),
     ]
     rows.append(dict(what="SNI host name is a valid DNS name",
                      dom={"sniExt": [True], "sniExt.extData": [b"x"], "sniExt.serverNames": [("n",)],
